@@ -15,7 +15,7 @@
 (*              oneof (groups of alternative names: exactly one present)]  *)
 (* Printed:  OP (operation illegal in its stage: who created / deleted     *)
 (* what), and at the end LEDGER (drift), LOST, DUPNAME, TEMP, PARTITION,   *)
-(* WRITTEN, TOPOLOGY, INPUT.                                               *)
+(* WRITTEN, TOPOLOGY, SURPLUS, INPUT.                                      *)
 (***************************************************************************)
 EXTENDS Naturals, Sequences, FiniteSets, TLC, Json, IOUtils, SequencesExt
 Traces == JsonDeserialize(IOEnv.TRACE_FILE)
@@ -59,6 +59,11 @@ AtEnd == (l = Len(T.ev) + 1) =>
            Say(~(r.full /\ r.check)
                \/ (ToSet(nm) \ alt = ToSet(r.want) \ alt
                    /\ \A g \in 1..Len(r.oneof) : Cardinality(ToSet(nm) \cap ToSet(r.oneof[g])) = 1), <<"TOPOLOGY", T.id, k>>)
+        \* parameterised or not: no atom beyond the atom set of the residue's final-state topology (nothing invented)
+        /\ LET alt == UNION {ToSet(r.oneof[g]) : g \in 1..Len(r.oneof)} IN
+           Say(~r.check
+               \/ (ToSet(nm) \subseteq ToSet(r.want) \cup alt
+                   /\ \A g \in 1..Len(r.oneof) : Cardinality(ToSet(nm) \cap ToSet(r.oneof[g])) <= 1), <<"SURPLUS", T.id, k>>)
   \* as many heavy atoms entered the model at set-up as the input has distinct heavy coordinate records
   /\ LET heirs == {heir[g] : g \in {x \in DOMAIN heir : heir[x] # x}}
          entered == {a \in DOMAIN origin : origin[a] = "input" /\ heavy[a] /\ a \notin heirs}
